@@ -3,7 +3,7 @@
 # usage: tools/eval_seeds.sh [tier] [seedid ...]    results appended to seeded/RESULTS.<tier>.txt
 cd "$(dirname "$0")/.."
 TIER=${1:-quick}; shift
-IDS=${@:-$(ls -d seeded/C??-[mnop]? | xargs -n1 basename)}
+IDS=${@:-$(ls -d seeded/C??-[mnopq]? | xargs -n1 basename)}
 for S in $IDS; do
   P=${S%%-*}
   out=$(tools/trymut.sh $P seeded/$S/patch.diff $TIER 2>&1)
